@@ -344,6 +344,63 @@ static void parse_schema_element(thrift_decoder_t* dec, carquet_arena_t* arena,
     }
 
     thrift_read_struct_end(dec);
+
+    /* Files from older writers state the annotation through converted_type
+     * only. Report it as the logical type it stands for (LogicalTypes.md,
+     * "backward compatibility"), so that the schema accessors say what the
+     * file states. */
+    if (!elem->has_logical_type && elem->has_converted_type) {
+        carquet_logical_type_t* lt = &elem->logical_type;
+        bool mapped = true;
+        memset(lt, 0, sizeof(*lt));
+        switch (elem->converted_type) {
+            case CARQUET_CONVERTED_UTF8: lt->id = CARQUET_LOGICAL_STRING; break;
+            case CARQUET_CONVERTED_MAP:
+            case CARQUET_CONVERTED_MAP_KEY_VALUE: lt->id = CARQUET_LOGICAL_MAP; break;
+            case CARQUET_CONVERTED_LIST: lt->id = CARQUET_LOGICAL_LIST; break;
+            case CARQUET_CONVERTED_ENUM: lt->id = CARQUET_LOGICAL_ENUM; break;
+            case CARQUET_CONVERTED_DECIMAL:
+                lt->id = CARQUET_LOGICAL_DECIMAL;
+                lt->params.decimal.scale = elem->scale;
+                lt->params.decimal.precision = elem->precision;
+                break;
+            case CARQUET_CONVERTED_DATE: lt->id = CARQUET_LOGICAL_DATE; break;
+            case CARQUET_CONVERTED_TIME_MILLIS:
+            case CARQUET_CONVERTED_TIME_MICROS:
+                lt->id = CARQUET_LOGICAL_TIME;
+                lt->params.time.is_adjusted_to_utc = true;
+                lt->params.time.unit = elem->converted_type == CARQUET_CONVERTED_TIME_MILLIS
+                    ? CARQUET_TIME_UNIT_MILLIS : CARQUET_TIME_UNIT_MICROS;
+                break;
+            case CARQUET_CONVERTED_TIMESTAMP_MILLIS:
+            case CARQUET_CONVERTED_TIMESTAMP_MICROS:
+                lt->id = CARQUET_LOGICAL_TIMESTAMP;
+                lt->params.timestamp.is_adjusted_to_utc = true;
+                lt->params.timestamp.unit = elem->converted_type == CARQUET_CONVERTED_TIMESTAMP_MILLIS
+                    ? CARQUET_TIME_UNIT_MILLIS : CARQUET_TIME_UNIT_MICROS;
+                break;
+            case CARQUET_CONVERTED_UINT_8:
+            case CARQUET_CONVERTED_UINT_16:
+            case CARQUET_CONVERTED_UINT_32:
+            case CARQUET_CONVERTED_UINT_64:
+                lt->id = CARQUET_LOGICAL_INTEGER;
+                lt->params.integer.is_signed = false;
+                lt->params.integer.bit_width = (int8_t)(8 << (elem->converted_type - CARQUET_CONVERTED_UINT_8));
+                break;
+            case CARQUET_CONVERTED_INT_8:
+            case CARQUET_CONVERTED_INT_16:
+            case CARQUET_CONVERTED_INT_32:
+            case CARQUET_CONVERTED_INT_64:
+                lt->id = CARQUET_LOGICAL_INTEGER;
+                lt->params.integer.is_signed = true;
+                lt->params.integer.bit_width = (int8_t)(8 << (elem->converted_type - CARQUET_CONVERTED_INT_8));
+                break;
+            case CARQUET_CONVERTED_JSON: lt->id = CARQUET_LOGICAL_JSON; break;
+            case CARQUET_CONVERTED_BSON: lt->id = CARQUET_LOGICAL_BSON; break;
+            default: mapped = false; break;   /* INTERVAL has no logical type */
+        }
+        elem->has_logical_type = mapped;
+    }
 }
 
 /* ============================================================================
